@@ -4,7 +4,7 @@
     WHICH candidates an atom produces (all occurrences / engine matches, each matching at its position)
     is the subject of C01; here it appears as the hypothesis on the candidate list. *)
 From ZV Require Import Lib.Base Lib.GoSearch Lib.RuneCount Model.Lines Model.Ranges
-  Proofs.LinesMatch Proofs.LinesBreakCover Proofs.RangesGather Proofs.RangesOffsets Proofs.RangesFind Generated.RangesConsts.
+  Proofs.LinesMatch Proofs.LinesBreakCover Proofs.RangesLineMode Proofs.RangesGather Proofs.RangesOffsets Proofs.RangesFind Generated.RangesConsts.
 From ZV Require Lib.Utf8.
 From Coq Require Import Sorting.Sorted Sorting.Permutation.
 
@@ -89,6 +89,30 @@ Theorem C02_break_newlines_cover_any : forall c ms b,
   forall p, covered b p <-> (covered ms p /\ nth_error c p <> Some 10%N).
 Proof. exact break_matches_cover. Qed.
 Print Assumptions C02_break_newlines_cover_any.
+
+(** LINE MODE END TO END (model level): gatherMatches followed by fillMatches (= breakMatchesOnNewlines +
+    fillContentMatches) on ANY in-bounds candidate list with a content range: succeeds, every LineMatch satisfies the
+    C03 invariant [lm_ok], and the reported fragments cover exactly the bytes of the kept content ranges minus newline
+    bytes ([frag_covered res p] = p lies in a LineFragment of a LineMatch of res) *)
+Theorem C02_line_mode_cover : forall nl c name ctx cands, (0 <= ctx)%Z ->
+  Forall (fun m => c_end m <= length c) cands ->
+  filter is_content (gather nl cands) <> [] ->
+  exists res, fill_matches (newlines_of c) c name ctx (gather nl cands) = Ok res /\
+    Forall (lm_ok c ctx) res /\
+    (forall p, frag_covered res p <->
+               (covered (filter is_content (gather nl cands)) p /\ nth_error c p <> Some 10%N)).
+Proof. exact line_mode_cover. Qed.
+Print Assumptions C02_line_mode_cover.
+
+(** ... for a single regexp: the fragments cover exactly the bytes of the engine's matches, newline bytes excluded —
+    the last clause of the property, with "ms = the engine's matches" (C01) as the hypothesis *)
+Theorem C02_regexp_line_mode : forall nl c name ctx ms, (0 <= ctx)%Z ->
+  ms <> [] -> engine_matches ms -> Forall (fun m => c_end m <= length c) ms ->
+  exists res, fill_matches (newlines_of c) c name ctx (gather nl ms) = Ok res /\
+    Forall (lm_ok c ctx) res /\
+    (forall p, frag_covered res p <-> (covered ms p /\ nth_error c p <> Some 10%N)).
+Proof. exact regexp_line_mode. Qed.
+Print Assumptions C02_regexp_line_mode.
 
 (** RUNE -> BYTE TRANSLATION, FULL: for every corpus [pre ++ doc :: post] indexed by one builder (the builder's sampling
     in newSearchableString, one sample per runeOffsetFrequency runes of the corpus-global rune index, each document
@@ -185,6 +209,16 @@ Example ex_break :
   break_matches [97; 98; 10; 10; 99; 100; 101]%N [ {| c_fn := false; c_off := 1; c_sz := 5 |} ]
   = Ok [ {| c_fn := false; c_off := 1; c_sz := 1 |}; {| c_fn := false; c_off := 4; c_sz := 2 |} ].
 Proof. reflexivity. Qed.
+
+(* engine matches "b\n\ncd" [1,6) and "e" [6,7) of "ab\n\ncde": fragments [1,2) (line 1), [4,6) and [6,7) (line 3) *)
+Example ex_regexp_line_mode :
+  let c := [97; 98; 10; 10; 99; 100; 101]%N in
+  let ms := [ {| c_fn := false; c_off := 1; c_sz := 5 |}; {| c_fn := false; c_off := 6; c_sz := 1 |} ] in
+  engine_matches ms /\
+  option_map (map (fun lm => (lm_num lm, map frag_cand (lm_frags lm))))
+    (match fill_matches (newlines_of c) c [102]%N 0%Z (gather 1 ms) with Ok r => Some r | _ => None end)
+  = Some [ (1%Z, [(1, 1)]); (3%Z, [(4, 2); (6, 1)]) ].
+Proof. split; [split; repeat constructor; simpl; lia | vm_compute; reflexivity]. Qed.
 
 (* "aa" in "aaaaa": occurrences at 0,1,2,3; leftmost non-overlapping = 0,2 *)
 Example ex_leftmost :
